@@ -150,6 +150,20 @@ maybe theorem tie_clear (s : Sys) (h : Inv s.buf) (hnd : NonDefect (clear s).1) 
      simp only [Gen.clear, clear, bind_run, pure_run, tie_truncate_back 0 s h hnd']
      cases truncateBack 0 s with
      | mk r s1 => cases r <;> rfl)
+  | (-- `truncate_back(0)` behind a guard of its own (`if self.size == 0 { return; }`)
+     have hnd' : NonDefect (truncateBack 0 s).1 := hnd
+     have hsz := h.size_le
+     simp only [Gen.clear, clear, bind_run, pure_run, getBuf_bind, getBuf_run, ite_run, ite_bind,
+       tie_truncate_back 0 s h hnd']
+     repeat' (first | rfl | ifsplit1)
+     all_goals (first
+       | rfl
+       | (cases truncateBack 0 s with
+          | mk r s1 => cases r <;> rfl)
+       | (have hm : truncateBack 0 s = (.ok (), s) := by
+            simp only [truncateBack, getBuf_bind, ite_run, pure_run]
+            rw [if_pos (by omega)]
+          rw [hm])))
   | (-- any other body: evaluated, against `truncate_back(0)` brought into its two forms
      have hsz := h.size_le
      have hW := h.cap_lt
@@ -165,10 +179,17 @@ maybe theorem tie_clear (s : Sys) (h : Inv s.buf) (hnd : NonDefect (clear s).1) 
            let b' ← getBuf
            dassert (decide (b'.size = 0))) s := by
          simp only [truncateBack, getBuf_bind, ite_run, hz, if_false]
+       have hnd0 := hnd
        rw [hm] at hnd ⊢
        have hnd' := nd_of_bind _ _ s hnd
        have htie := tie_drop_range 0 s.buf.size s h hnd'
-       truncEval [Gen.clear, htie]
+       -- a body that still calls `truncate_back(0)` behind a guard of its own: that call by its tie
+       first
+       | (have htb : Gen.truncate_back 0 s = (dropRange 0 s.buf.size >>= fun _ => do
+              let b' ← getBuf
+              dassert (decide (b'.size = 0))) s := by rw [tie_truncate_back 0 s h hnd0, hm]
+          truncEval [Gen.clear, htb, htie])
+       | truncEval [Gen.clear, htie]
        all_goals (first | rfl | (exfalso; omega) |
          (cases dropRange 0 s.buf.size s with
           | mk r s1 => cases r with
